@@ -105,6 +105,8 @@ class ArrContent:
         c = ArrContent(self.shape, self.data, self.kind, self.elem_ctype, self.numpy)
         if getattr(self, 'readonly', False):
             c.readonly = True
+        if getattr(self, 'sparse_model', False):
+            c.sparse_model = True
         return c
 
     @property
@@ -326,6 +328,13 @@ class VNested:
 
     def __init__(self, node):
         self.node = node
+
+
+class VRowRange:
+    """a[lo:hi] of a sequence / the leading axis of an array, bounds already clipped to [0, len]"""
+
+    def __init__(self, ref, lo, hi):
+        self.ref, self.lo, self.hi = ref, lo, hi
 
 
 class VArrView:
